@@ -766,11 +766,14 @@ TotCase(p) == LET k == IF Mode = "walk" /\ Len(p) = MaxLen + Len(WalkStart) THEN
 
 \* nesting-depth classes: the string  open^n core close^n.  Recursive descent (parseSeqQLSubexpr, parseSubexpr)
 \* and propagateNot recurse once per open piece; the property allows no other outcome than for short inputs.
-DeepShapes == {[name |-> "paren",   open |-> <<"(">>, close |-> <<")">>],
-               [name |-> "unclosed", open |-> <<"(">>, close |-> <<>>],
-               [name |-> "not",     open |-> <<"not", "<SP>">>, close |-> <<>>],
-               [name |-> "notparen", open |-> <<"not", "(">>, close |-> <<")">>],
-               [name |-> "andchain", open |-> <<"f", ":", "x", "<SP>", "and", "<SP>", "not", "<SP>">>, close |-> <<>>]}
+\* w = bytes per repetition: a repetition count is tried for a shape only while the query stays under 200 MB (the store's
+\* gRPC server accepts requests of up to 256 MB, so such a query does reach the parser)
+DeepShapes == {[name |-> "paren",   open |-> <<"(">>, close |-> <<")">>, w |-> 2],
+               [name |-> "unclosed", open |-> <<"(">>, close |-> <<>>, w |-> 1],
+               [name |-> "not",     open |-> <<"not", "<SP>">>, close |-> <<>>, w |-> 4],
+               [name |-> "notparen", open |-> <<"not", "(">>, close |-> <<")">>, w |-> 5],
+               [name |-> "andchain", open |-> <<"f", ":", "x", "<SP>", "and", "<SP>", "not", "<SP>">>, close |-> <<>>, w |-> 12]}
+DeepFits(sh, n) == n <= 200000000 \div sh.w
 DeepCase(name, n) == LET sh == CHOOSE x \in DeepShapes : x.name = name IN
                      [kind |-> "deep", shape |-> name, open |-> sh.open, core |-> <<"f", ":", "x">>, close |-> sh.close,
                       n |-> n, maps |-> <<"keyword">>, allowed |-> AllowedOutcomes]
@@ -840,7 +843,7 @@ Walk == /\ Mode \in {"walk", "gwalk", "phrase", "pipe"}
         /\ \E i \in DOMAIN Alphabet : pre' = Append(pre, Alphabet[i])
         /\ UNCHANGED <<tr, sty, grown, rep>>
 Deep == /\ Mode = "deep" /\ rep = 0
-        /\ \E sh \in DeepShapes, n \in DeepReps : pre' = <<sh.name>> /\ rep' = n
+        /\ \E sh \in DeepShapes, n \in DeepReps : DeepFits(sh, n) /\ pre' = <<sh.name>> /\ rep' = n
         /\ UNCHANGED <<tr, sty, grown>>
 Next == Grow \/ ChooseParen \/ ChooseSpell \/ RandStep(sty) \/ Walk \/ Deep
 Spec == Init /\ [][Next]_vars
